@@ -321,6 +321,10 @@ def check(pid, tier, seed):
                "profiles": ["debug"] + (["release"] if need_release else []),
                "known_findings_replayed": len(kf_lines),
                "notes": report["notes"]}
+        if not proof_ok:
+            # the schema wants discharged >= 1 for a proof-level claim: say plainly that nothing is discharged
+            cov.pop("discharged", None)
+            cov["proof_failed"] = True
         cov.update(special["coverage"])
         if P.get("explanation"):
             cov["explanation"] = P["explanation"]
